@@ -203,6 +203,13 @@ def main(argv):
     for key, v in sorted(seen_known.items()):
         print('KNOWN-FINDING: property=%s %s [key=%s] e.g. %s' % (
             cid, known[(cid, key)], key, v['msg'][:200]))
+    for (pid, key), text in sorted(known.items()):
+        if pid == cid and key not in seen_known:
+            # listed, but this run did not reproduce it (several need the
+            # thorough tier, pre-emptive schedules or a rare interleaving)
+            print('KNOWN-FINDING: property=%s %s [key=%s] (listed in '
+                  'KNOWN_FINDINGS.txt; not reproduced by this %s run)' % (
+                      cid, text, key, tier))
     rc = 0
     if new:
         rdir = os.path.join(os.environ.get('VERIF_EVIDENCE_DIR') or
